@@ -17,8 +17,8 @@
      history   the record [hlib] (keccak of a header, RLP / SSZ decoders, root derivations) and the accumulators [hacc]
                (pair hash, embedded accumulators, summaries cache and oracle answer per call);
      state     keccak, the RLP node decoder, types.FullAccount, the header source, the content id function and
-               [dec_item] = the two ztyp Deserialize calls of a (key, content) pair (the decoders of Model/WireState.v are
-               given as [state_dec_item]; they have no totality theorem yet, C14 is partial there);
+               [dec_item] = the two ztyp Deserialize calls of a (key, content) pair; [state_dec_item] / [slib_concrete] fix it
+               to the decoders of Model/WireState.v (total by C14_decoders_total_state);
      beacon    [content_info] = Deserialize of the Forked* content types + the checks made on the decoded value (fork digest,
                bootstrap age, the summaries Merkle branch) reduced to the one number compared with the key.
    No proofs in this file. *)
@@ -171,6 +171,12 @@ Definition state_dec_item (t : N) (body content : bytes) : res request :=
   else
     bind (dec_BytecodeKey code_strict_state_fixed_keys body) (fun '(addr, ch) =>
     bind (dec_BytecodeWithProof content) (fun '(code, aproof, bh) => Ok (RBytecode addr ch code aproof bh))).
+
+(* the state library with the two Deserialize calls fixed to the decoders of Model/WireState.v *)
+Definition slib_concrete (node_hash : bytes -> bytes) (decode : bytes -> res node) (decode_account : bytes -> res (bytes * bytes))
+           (header : nat -> bytes -> res bytes) (cid : bytes -> bytes) : slib :=
+  {| sl_node_hash := node_hash; sl_decode := decode; sl_decode_account := decode_account; sl_header := header; sl_cid := cid;
+     sl_dec_item := state_dec_item |}.
 
 (* StateValidator.ValidateContent *)
 Definition state_validate (L : slib) (i : nat) (key content : bytes) : res unit :=
